@@ -830,3 +830,103 @@ def replay_leak(run, body):
 
 
 REPLAYERS["leak"] = replay_leak
+
+
+# =============================================================== C08 immutability (SymHeap)
+
+def heap_text(c):
+    out = []
+    for o in c["hist"]:
+        k = o["op"]
+        out.append({"create": "create(t%d)" % o.get("t", 0), "add": "add(b%d,s%d)" % (o.get("b", 0), o.get("s", 0)), "build": "build(b%d)" % o.get("b", 0),
+                    "append": "append(k%d)" % o.get("k", 0), "getblockid": "getblockid(t%d,s%d)" % (o.get("t", 0), o.get("s", 0)),
+                    "seal": "seal(t%d)" % o.get("t", 0), "reload": "reload(t%d)" % o.get("t", 0)}[k])
+    return " ".join(out)
+
+
+def heap_expectations(run, cases):
+    """TLC steps every history through SymHeap's actions (rejecting histories that are not behaviours of the
+    specification) and prints the specification's `want` for every token and built block."""
+    path = run.work.path("heap.hist.ndjson")
+    with open(path, "w") as f:
+        for c in cases:
+            f.write(json.dumps({"id": c["id"], "hist": [{k: v for k, v in o.items() if k in ("op", "t", "b", "k", "s")} for o in c["hist"]]}) + "\n")
+    r = core.tlc(run.work, "TraceHeap", "TraceHeap", workers=1, env={"TRACE": path}, timeout=1500)
+    run.add_tlc(r, "histories stepped through SymHeap actions (expectations)")
+    exp = {c["id"]: c for c in r.cases}
+    done = [p for k, p in r.printed if k == "BAD"]
+    if not done or json.loads(done[0])["n"] != len(cases) or len(exp) != len(cases):
+        raise Infra("TraceHeap rejected a history (an operation was not an enabled action of SymHeap): %d of %d accepted\n%s" % (len(exp), len(cases), r.out[-1500:]))
+    for c in cases:
+        c["want"], c["bwant"] = exp[c["id"]]["want"], exp[c["id"]]["bwant"]
+    run.traces += len(cases)
+
+
+def heap_judge(c, o):
+    if "bad" not in o:
+        return ["driver: " + json.dumps(o)[:300]]
+    return o["bad"]
+
+
+def heap_stage(run, driver, cases, label, family="heap"):
+    res = core.run_driver(driver, family, cases, per_case_timeout=180)
+    nbad = 0
+    for c in cases:
+        o = res[c["id"]]
+        sib = len(set(x["t"] for x in c["hist"] if x["op"] == "create")) < sum(1 for x in c["hist"] if x["op"] == "create")
+        run.count(heap_text(c) if sib else None)
+        bad = heap_judge(c, o) if not o.get("crash") else ["process died: " + o.get("stderr", "")[-300:]]
+        if bad and nbad < 20:
+            nbad += 1
+            rc = confirm_case(driver, family, c, o, ("bad",)) if not c.get("conc") else c
+            run.report({"history": heap_text(c)}, c, family, "%s %s: %s" % (label, heap_text(c), "; ".join(bad[:3])), (lambda rc=rc: rc is not None))
+
+
+@check("C08")
+def c08(run):
+    run.rule = ("L1: SymHeap.tla models Go slice headers over backing arrays with nondeterministic growth capacity and every operation "
+                "that clones / extends a symbol table (CreateBlock, AddFact, Build, Append, GetBlockID, Seal, Unmarshal); TLC checks "
+                "Immutable (every live token and built block reads exactly what its own caller put in) and WireStable over all "
+                "interleavings of <= 6 operations, and refutes it for the pinned tree's header-copy Clone. L2/L3: TLC-simulated and "
+                "seeded generator histories (families of up to 20 tokens, blocks of 0-6 symbols so every spare-capacity situation of the "
+                "real allocator occurs, siblings from one parent) are stepped through the specification's actions by TLC, which yields "
+                "the expected content of every object; the driver executes them and re-observes EVERY live token and block after EVERY "
+                "operation (String, Code, Serialize, Unmarshal(Serialize), RevocationIds, Authorize). Non-trivial = distinct histories "
+                "with at least two builders created from the same parent.")
+    run.assumptions = ["symbols are observed through the printed Datalog of each block (Code()) and the symbols a built block declares (verif accessor)"]
+    driver = core.build_driver(run.work)
+    r = core.tlc(run.work, "SymHeap", "SymHeap_fixed_thorough" if run.tier == "thorough" else "SymHeap_fixed", timeout=1700)
+    run.add_tlc(r, "L1 Immutable / WireStable, all interleavings")
+    rn = core.tlc(run.work, "SymHeap", "SymHeap_today", expect_violation=True)
+    run.add_tlc(rn, "negative model: header-copy Clone")
+    if not rn.violated:
+        raise Infra("negative model SymHeap_today holds")
+    run.notes.append("negative model (SymbolTable.Clone copies the slice header): TLC reports %s violated" % rn.violated)
+    import random
+    rs = core.tlc(run.work, "SymHeap", "SymHeap_sim", workers=4, simulate=150 if run.tier == "quick" else 1500, depth=18, seed=run.seed, timeout=600)
+    run.add_tlc(rs, "L2 simulated behaviours (export)")
+    rnd = random.Random(run.seed)
+    sim = [c for c in rs.cases if any(o["op"] == "append" for o in c["hist"])]
+    rnd.shuffle(sim)
+    sim = sim[:1500 if run.tier == "quick" else 20000]
+    for i, c in enumerate(sim):
+        c["id"], c["emb"] = "s%d" % i, emb_of(run, i)
+    heap_stage(run, driver, sim, "L2")
+    gen = gen_cases(run, driver, "heap")
+    heap_expectations(run, gen)
+    heap_stage(run, driver, gen, "L3")
+    run.traces += len(sim)
+    run.sample({"history": heap_text(gen[5]), "spec_want_per_token": gen[5]["want"], "spec_want_per_block": gen[5]["bwant"]})
+
+
+def replay_heap(run, body):
+    driver = core.build_driver(run.work, race=bool(body["case"].get("conc")))
+    c = dict(body["case"])
+    o = core.run_driver(driver, body["family"], [c], nproc=1)[str(c["id"])]
+    bad = heap_judge(c, o) if not o.get("crash") else ["process died"]
+    run.count("replay")
+    if bad:
+        run.report(body["sig"], c, body["family"], "replayed: %s: %s" % (heap_text(c), "; ".join(bad[:3])))
+
+
+REPLAYERS["heap"] = replay_heap
